@@ -7,14 +7,23 @@ dimension vector and accept/reject verdict are computed from the derivation, nev
 
 Sub-spaces
   atom     every table symbol (UNIT_STANDARD and QUANTITY_UNITS) x (no prefix + every prefix, admissible or not)
-           x exponent spellings {'', '2', '-1', '+2', '1:2', '-3:2', '2:4', '0'}                      (complete)
+           x 16 exponent spellings: one- and two-digit numerators and denominators, signs, unreduced, zero (complete)
   insert   every valid spelling, bare and with exponent 2, with one foreign item of JUNK put in front of it, between
            prefix and symbol, and behind the symbol                                                   (complete)
-  sweep    every valid spelling inside 10 small product/quotient/parenthesis templates                (complete)
+  sweep    every valid spelling inside 12 small product/quotient/parenthesis templates                (complete)
   struct   all expressions with 2..4 leaves over a 6-atom alphabet, operators * and /, parentheses to nesting 2
            (11+3+1 shapes x all operator choices x all leaf assignments); alphabet = core window + table windows
   numeric  all expressions with 2..3 leaves over the core atoms + numeric factors {2, 1e3, 2.5e-3, -2} that contain
            at least one number and one unit, observed through Quantity(1, text)
+  mixexp   the SAME spelling several times with DIFFERENT exponents, so that exponents are really added/subtracted:
+           every valid spelling t in t^a*t^b and t^a/t^b for all ordered pairs (a, b) of MIX_EXPS (denominators
+           2,3,4,5,7 -> merged denominators 10, 12, 14, 20 ...; shared denominators 2|4), and all 3-leaf
+           expressions over {t^a, m2} for the core spellings                                           (complete)
+
+History dimension: every string that must be rejected is parsed four times in the same process (BaseUnits twice,
+Quantity(1, .) twice) and has to be rejected every time; every string that must be accepted is parsed by BaseUnits and
+again by Quantity and both results are compared.  replay() executes the case in a fresh interpreter, so a record
+replays identically whatever the parent process parsed before.
 
 Not demanded (left out): order of terms in the rendered text and its exact spelling (only its *meaning* by the tables
 and the parse->render->parse round trip are checked); an exponent on a parenthesis; the empty string; blanks; where a
@@ -22,7 +31,7 @@ bare number is kept by BaseUnits (numbers are observed through Quantity only); r
 """
 from fractions import Fraction as F
 
-from ..common import Shard, failure, outcome, HarnessError
+from ..common import Shard, failure, outcome, HarnessError, VERIF
 from .. import isolation
 from ..refmodels import units_ref
 
@@ -40,7 +49,9 @@ ASSUMPTIONS = [
     "Quantity(1, text) is observed as value x unit factor (the statement does not say how the total is split)",
 ]
 
-EXPS = ["", "2", "-1", "+2", "1:2", "-3:2", "2:4", "0"]
+EXPS = ["", "2", "-1", "+2", "1:2", "-3:2", "2:4", "0",
+        "12", "-10", "10:3", "1:12", "-5:12", "7:10", "3:16", "11:10"]      # two-digit numerators / denominators
+MIX_EXPS = [F(1, 2), F(1, 5), F(1, 4), F(1, 3), F(-3, 2), F(1, 7), 2]
 JUNK = ["x", "q", "Q", "j", "_", "~", "da", "kk", "k", "a"]
 NUMBERS = ["2", "1e3", "2.5e-3", "-2"]
 CORE = [("km", 1), ("m", 2), ("s", -1), ("g", F(1, 2)), ("daar", 1), ("#SLEN", 1)]
@@ -49,6 +60,7 @@ NWINDOWS = 24
 N_ATOM_SHARDS = 32
 N_INSERT_SHARDS = 24
 N_SWEEP_SHARDS = 8
+N_MIX_SHARDS = 16
 RTOL = 1e-12
 
 _REF = None
@@ -204,6 +216,8 @@ SWEEP = [  # templates over t (every valid spelling); fixed partners m, s, kg
     (["kg", 1], "/", "(", ["t", 1], "*", ["s", 2], ")"),
     (["m", 1], "/", "(", ["t", 1], "/", ["s", 1], ")"),
     ("(", "(", ["t", 1], ")", "/", ["s", 1], ")"),
+    (["m", 2], "/", "(", ["t", F(1, 2)], "*", ["t", F(1, 7)], ")"),            # merged exponent -9:14
+    ([["t", F(1, 4)], "/", ["t", F(1, 3)], "*", ["kg", 1]]),                   # merged exponent -1:12
 ]
 
 
@@ -261,18 +275,20 @@ def check_case(case):
     ref = _REF
     sub, text, expect = case["sub"], case["text"], case["expect"]
     tags = list(case.get("tags", []))
-    ob = outcome(BaseUnits, text)
     if expect is None:
-        if ob[0] == "ok":
-            b = ob[1]
-            return failure(sub, case, "rejected with an error",
-                           dict(accepted_as=b.expression, magnitude=b.magnitude),
-                           tags=tags, behaviour="accepted")
-        oq = outcome(Quantity, 1, text)
-        if oq[0] == "ok":
-            return failure(sub, case, "rejected with an error", dict(quantity=str(oq[1])),
-                           tags=tags + ["via-quantity"], behaviour="accepted")
+        # must be rejected - every time it is given, through either entry point (a failed parse must not leave
+        # anything behind that makes a later parse of the same string succeed)
+        for attempt, entry in enumerate(("BaseUnits", "BaseUnits", "Quantity", "Quantity"), 1):
+            o = outcome(BaseUnits, text) if entry == "BaseUnits" else outcome(Quantity, 1, text)
+            if o[0] == "ok":
+                seen = o[1] if entry == "BaseUnits" else o[1].baseunits
+                obs = outcome(lambda: dict(accepted_as=seen.expression, magnitude=seen.magnitude, parse=attempt,
+                                           entry=entry, quantity=None if entry == "BaseUnits" else str(o[1])))
+                return failure(sub, case, "rejected with an error, every time",
+                               obs[1] if obs[0] == "ok" else dict(parse=attempt, entry=entry), tags=tags,
+                               behaviour="accepted" if attempt == 1 else "accepted-on-repeated-parse")
         return None
+    ob = outcome(BaseUnits, text)
     terms = [(t, F(e)) for t, e in expect["terms"]]
     numbers = expect["numbers"]
     merged = ref.merge(terms)
@@ -373,6 +389,7 @@ def plan(tier, seed):
             for b in range(6):
                 shards.append(("struct", w, a, b))
     shards += [("numeric", a, None) for a in range(len(CORE) + len(NUMBERS))]
+    shards += [("mixexp", i, N_MIX_SHARDS) for i in range(N_MIX_SHARDS)]
     # the complete single-atom sub-spaces first: they yield the smallest counterexamples
     shards.sort(key=lambda d: 1 if d[0] == "struct" else 0)
     return shards
@@ -459,18 +476,57 @@ def run_shard(desc):
                         text, signed = _render(shape, leaves, ops)
                         _run(sh, dict(sub="numeric", text=text, expect=_expect(signed), tags=["leaves:%d" % n]),
                              sample=(n == 3 and a == 0 and rest == [7, 2] and ops == ["*", "/"]))
+    elif kind == "mixexp":
+        names = sorted(_REF.spellings)
+        for n, t in enumerate(names[desc[1]::desc[2]]):
+            for a in MIX_EXPS:
+                for b in MIX_EXPS:
+                    if a == b:
+                        continue                      # equal exponents: already in struct / sweep
+                    for op in ("*", "/"):
+                        text, signed = _render(["L", "L"], [(t, a), (t, b)], [op])
+                        _run(sh, dict(sub="mixexp", text=text, expect=_expect(signed), tags=["leaves:2"]),
+                             sample=(n == 2 and desc[1] == 0 and (a, b, op) == (MIX_EXPS[0], MIX_EXPS[1], "*")))
+        if desc[1] < len(CORE):
+            t = CORE[desc[1]][0]
+            alpha = [(t, e) for e in MIX_EXPS] + [("kg", 1)]
+            for shape in _shapes(3, 2):
+                for idx in _product([list(range(len(alpha)))] * 3):
+                    leaves = [alpha[i] for i in idx]
+                    if len(set(l[1] for l in leaves if l[0] == t)) < 2:
+                        continue                      # needs the same spelling with two different exponents
+                    for ops in _product([["*", "/"]] * 2):
+                        text, signed = _render(shape, leaves, ops)
+                        _run(sh, dict(sub="mixexp", text=text, expect=_expect(signed), tags=["leaves:3"]),
+                             sample=(desc[1] == 0 and idx == [0, 3, 7] and ops == ["/", "*"]))
     else:
         raise HarnessError("unknown shard %r" % (desc,))
     _tables_guard(sh)
     return sh
 
 
+_REPLAY_CODE = ("import sys, json\n"
+                "from mc import common\n"
+                "common.use_repo()\n"
+                "from mc.checks import c03_unit_parse as C\n"
+                "C.init_worker()\n"
+                "r = C.check_case(json.load(sys.stdin))\n"
+                "print('\\n@@C03-REPLAY@@' + json.dumps(None if r == 'skip' else r, default=repr))\n")
+
+
 def replay(rec):
-    init_worker()
-    isolation.tables_restore()
-    r = check_case(rec["case"])
-    isolation.tables_restore()
-    return None if r == "skip" else r
+    """Re-execute ONE case in a fresh interpreter: whatever this process parsed before (a library that remembers
+    earlier parses would make the outcome depend on it) cannot influence the replay, and two replays are identical."""
+    import os
+    import sys
+    import json
+    import subprocess
+    r = subprocess.run([sys.executable, "-W", "ignore", "-c", _REPLAY_CODE], input=json.dumps(rec["case"]),
+                       capture_output=True, text=True, cwd=VERIF, timeout=300, env=dict(os.environ))
+    mark = "@@C03-REPLAY@@"
+    if r.returncode != 0 or mark not in r.stdout:
+        raise HarnessError("replay interpreter failed: " + (r.stderr or r.stdout)[-600:])
+    return json.loads(r.stdout.split(mark, 1)[1])
 
 
 def finish(total, tier, seed):
@@ -479,13 +535,14 @@ def finish(total, tier, seed):
         raise HarnessError("vacuous atom sub-space: %r" % (h,))
     if h.get("insert:reject-expected", 0) < 1000:     # valid results of an insertion belong to the atom sub-space
         raise HarnessError("vacuous insert sub-space: %r" % (h,))
-    for sub in ("sweep", "struct", "numeric"):
+    for sub in ("sweep", "struct", "numeric", "mixexp"):
         if h.get(sub + ":accept-expected", 0) < 1000:
             raise HarnessError("vacuous %s sub-space: %r" % (sub, h))
     skipped = sum(v for k, v in h.items() if k.endswith("skipped-out-of-float-range"))
     return dict(
         table_symbols=len(_REF.symbols), prefixes=len(_REF.prefixes), valid_spellings=len(_REF.spellings),
         exponent_spellings=EXPS, foreign_items=JUNK, numeric_factors=NUMBERS,
+        mixed_exponents=[units_ref.exp_text(e) or "1" for e in MIX_EXPS], parses_per_rejected_string=4,
         structure=dict(max_leaves=4, max_nesting=2, shapes={n: len(_shapes(n, 2)) for n in (2, 3, 4)},
                        alphabet_size=6, windows_total=NWINDOWS + 1,
                        windows_explored=sorted(total.sets.get("windows", []))),
@@ -496,13 +553,16 @@ def finish(total, tier, seed):
 
 MANIFEST = dict(
     text="Complete enumeration on the real parser: every table symbol (153 units/constants + 112 system units) x every "
-         "prefix (admissible or not) x 8 exponent spellings; every valid spelling with one of 10 foreign items put in "
-         "front of / inside / behind it; every valid spelling in 10 product/quotient/parenthesis templates; all "
+         "prefix (admissible or not) x 16 exponent spellings (one/two-digit numerators and denominators); every valid "
+         "spelling with one of 10 foreign items put in front of / inside / behind it (plus pseudo-number words); every "
+         "valid spelling in 12 product/quotient/parenthesis templates; all "
          "expressions with <= 4 leaves, nesting <= 2 over 6-atom alphabets (core + 1 of 24 table windows in quick, all "
-         "in thorough); numeric factors in all <= 3-leaf expressions. Factor (rel 1e-12), exact rational dimension "
+         "in thorough); numeric factors in all <= 3-leaf expressions; every valid spelling repeated with two different "
+         "exponents out of 7 (merged denominators up to 28). Every must-reject string is parsed 4 times in one process "
+         "and must be rejected each time. Factor (rel 1e-12), exact rational dimension "
          "vector, accept/reject verdict, meaning of the rendered text and the parse-render-parse round trip are "
          "compared with a Fraction model built from the published tables.",
-    note="Bounded: exponents from 8 spellings, <= 4 leaves, nesting <= 2, 10 foreign items, 4 numeric factors; longer "
+    note="Bounded: exponents from 16 spellings, <= 4 leaves, nesting <= 2, 10 foreign items, 4 numeric factors; longer "
          "expressions and other characters rely on the small-scope hypothesis. Trusted: the published tables as "
          "specification, Python Fraction/float arithmetic. Blanks, exponent on a parenthesis, term order not demanded.",
     technique="bounded grammar unfolding from derivations, dictionary-of-valid-spellings + Fraction reference model",
